@@ -100,6 +100,13 @@ int parse_instruction_pic18(AsmContext *asm_context, char *instr)
     {
       token_type = tokens_get(asm_context, token, TOKENLEN);
 
+      // instr and instr_case are TOKENLEN bytes.
+      if (strlen(instr) + 2 > TOKENLEN || strlen(instr_case) + 2 > TOKENLEN)
+      {
+        print_error_unexp(asm_context, token);
+        return -1;
+      }
+
       if (IS_TOKEN(token, '*'))
       {
         strcat(instr_case, token);
